@@ -540,7 +540,7 @@ Proof. vm_compute. repeat split; reflexivity. Qed.
 (* a complete resource, both padding conventions: reported completely and unaltered, all queries agree *)
 Definition demo_vi : vinfo :=
   {| vi_key := [86; 83; 95]; vi_fixed := [1213; 65263; 0; 1; 607; 22; 25; 2013; 607; 22; 25; 2013; 63; 0; 0; 0; 4; 0; 2; 0; 0; 0; 0; 0; 0; 0];
-     vi_blocks := [ BVars [ (Translation, [1033; 1200]) ];
+     vi_blocks := [ BVars [ {| vv_key := Translation; vv_value := [1033; 1200]; vv_odd := None |} ];
                     BOther [79] [1; 2; 3];
                     BStrings [ {| vt_key := f32_lang; vt_strings := [ {| vs_key := [65; 98; 99]; vs_value := [49; 0; 50; 0] |};
                                                                        {| vs_key := [75]; vs_value := [] |};
